@@ -7,6 +7,10 @@ HOOK_COMMITS = []
 
 # id -> (technique, level text, level note, design ref)
 CLAIMED = {
+ "C16": ("runtime monitor: harness plays all Ethernet neighbors (ARP and NDISC); evidence list of valid announcements + independently computed next hop judge every emitted unicast frame; discovery spacing and exactly-once delivery of queued datagrams",
+         "Exploration by runtime monitoring: 4 000 (quick) / 150 000 (thorough) seeded scenarios of 30..250 steps on an Ethernet interface with IPv4 and IPv6, 2..12 on-link neighbors (more than the 8 / 3 cache slots of the two build variants), two gateways and an expiring route: timely / late (1, 3, 61 s) / absent answers, unsolicited and gratuitous announcements with another hardware address, off-link senders, hop limit 64, broadcast/multicast hardware addresses, ARP for another target, confirming and foreign-address inbound traffic, address changes, time steps straddling 1 s and 60 s. Every emitted unicast IP frame must go to a hardware address announced for its independently computed next hop by a valid message (or confirming traffic) less than 60 s ago; discovery requests >= 1 s apart; every accepted datagram appears exactly once after its next hop answers.",
+         "Trusted: the evidence model and next-hop computation in harness/src/mon/c16.rs, the independent ARP/NDISC/UDP builders in harness/src/indep/mini.rs. Confirming traffic may revive a mapping that was announced once. IEEE 802.15.4 neighbor handling is only exercised by the C20 scenarios.",
+         "DESIGN.md §4 C16"),
  "C11": ("runtime monitor: table-driven exhaustive class grid (one fresh interface per cell) judged by a decision table over socket deltas and emitted frames; 802.15.4 PAN filter part",
          "Exploration by runtime monitoring with an exhaustive finite grid: 64 000 cells = medium/link-layer destination (IP; Ethernet ours/other station/broadcast/multicast) x IPv4/IPv6 x 8 source classes x 10 destination classes x 10 protocols x 4 socket configurations x group joined, every cell visited in both tiers (thorough: 8 seeds per cell), plus 144 IEEE 802.15.4 cells (destination PAN ours/other/broadcast x link destination x IPv6 destination x UDP/echo x interface PAN set/unset). Each packet is injected with poll_ingress_single followed by one egress pass; socket deltas and emitted frames (parsed independently) are judged by the rules of the statement.",
          "Trusted: the decision table in harness/src/mon/c11.rs, the independent builders/parsers in harness/src/indep. any_ip is off. 802.15.4 frames of the PAN part are built with smoltcp's own emitters (the oracle does not judge them). A UDP socket bound to a specific address also receiving broadcast/multicast datagrams is treated as matching its endpoint (documented behaviour of udp::Socket).",
